@@ -116,6 +116,19 @@ def cut_points(prog, rep, ctx):
     rep.rule("CUT", "pieces of list two enter the result only as outputs of _split_event or as untouched elements; list two's event is cut at the END of the current list-one event when list one starts first (the piece after is kept for later) and at its START otherwise (the piece before is emitted, the piece after re-queued)")
     fi = prog.func("union_no_overlap")
     lp, (l1, i1, e1), (l2, i2, e2), acc = ctx
+    # the overlap test that routes list-two events into the trimming branches must mean POSITIVE overlap:
+    # under "touching counts as overlap" an uncovered list-two event that starts where e1 ends is split at its own
+    # start, _split_event returns (e2, None) and the event is skipped without being emitted
+    tops = [st for st in lp.body if isinstance(st, ast.If)]
+    if tops:
+        t = tops[0].test
+        tt = norm(t)
+        if isinstance(t, ast.Call) and isinstance(t.func, ast.Attribute) and t.func.attr in ("intersects", "overlaps") and len(t.args) == 1:
+            rep.ok("CUT", fi.short, "overlap test", f"{tt} (positive overlap)", fi.loc(tops[0]))
+        elif "gap(" in tt or "adjacent(" in tt or "contains(" in tt:
+            rep.violation("CUT", fi.short, "overlap test", f"list-two events are routed into the trimming branches by `{tt}`, which also holds for events that merely touch the list-one event: an uncovered list-two event starting exactly where the list-one event ends is cut at its own start, nothing is kept and it is dropped (covered time is lost)", fi.loc(tops[0]), expected="e1_p.intersects(e2_p)", found=tt)
+        else:
+            rep.undecided("CUT", fi.short, "overlap test", f"unrecognised overlap test `{tt}`", fi.loc(tops[0]))
     calls = [c for c in ast.walk(lp) if isinstance(c, ast.Call) and norm(c.func) == "_split_event"]
     if len(calls) != 2:
         rep.violation("CUT", fi.short, "_split_event call sites", f"{len(calls)} call sites (2 expected)", fi.loc(lp))
@@ -197,6 +210,7 @@ VARIANTS = [
     ("B cut at start instead of end", F, "_split_event(e2, e1.timestamp + e1.duration)", "_split_event(e2, e1.timestamp)", "CUT"),
     ("B piece after not re-queued", F, "                if e2_next2:\n                    events2.insert(e2_i, e2_next2)\n", "", "CUT"),
     ("B tail of list one forgotten", F, "    events_union += events1[e1_i:]\n", "", "L1-INTACT"),
+    ("B touching counts as overlap", F, "        if e1_p.intersects(e2_p):", "        if e1_p.gap(e2_p) is None:", "CUT"),
     ("OK guard reordered", F, "    if e.timestamp < dt < e.timestamp + e.duration:", "    if dt > e.timestamp and dt < e.timestamp + e.duration:", "ok"),
     ("OK tail via extend", F, "    events_union += events1[e1_i:]\n", "    events_union.extend(events1[e1_i:])\n", "ok"),
 ]
